@@ -1866,6 +1866,36 @@ func (v *Verifier) checkWired(fc *FuncCtx) {
 					continue
 				}
 				x := strip(args[w.Arg])
+				if strings.HasPrefix(w.Source, "global:") || strings.HasPrefix(w.Source, "func:") {
+					// SOURCE `global:<Name>`: the argument is (the value of) the package-level variable of that name;
+					// SOURCE `func:<Name>`: the argument is the function of that name (a function value, possibly converted)
+					want := w.Source[strings.Index(w.Source, ":")+1:]
+					y := x
+					if u, isLoad := y.(*ssa.UnOp); isLoad && u.Op == token.MUL {
+						y = u.X
+					}
+					got := ""
+					switch t := y.(type) {
+					case *ssa.Global:
+						if strings.HasPrefix(w.Source, "global:") {
+							got = t.Name()
+						}
+					case *ssa.Function:
+						if strings.HasPrefix(w.Source, "func:") {
+							got = t.Name()
+						}
+					case *ssa.MakeClosure:
+						if f, isFn := t.Fn.(*ssa.Function); isFn && strings.HasPrefix(w.Source, "func:") {
+							got = f.Name()
+						}
+					}
+					if got == want {
+						ok, why = true, fmt.Sprintf("argument %d is %s", w.Arg, y)
+					} else {
+						why = fmt.Sprintf("argument %d is %s, not %s", w.Arg, y, w.Source)
+					}
+					continue
+				}
 				if strings.HasPrefix(w.Source, "key:") {
 					// SOURCE `key:<string>`: the argument is a map lookup m[K] whose key is that string constant
 					// (keys[distrtypes.StoreKey]: which store a keeper is constructed over)
